@@ -173,7 +173,7 @@ func (w *world) apply(k opKind) {
 	live := "audit.log"
 	switch k {
 	case opAppend2:
-		a, b := w.line(), w.line()
+		a, b := w.line()+"\r", w.line() // (the first line ends in a carriage return: it belongs to the line)
 		w.fs.files[live] = append(w.fs.files[live], []byte(a+"\n"+b+"\n")...)
 		if w.pending != "" {
 			a = w.pending + a
